@@ -89,6 +89,9 @@ def m_vec_push(I, s, fr, c, a, d, de, rb):
 def m_vec_extend(I, s, fr, c, a, d, de, rb):
     v = dr(I, s, a[0]); o = dr(I, s, a[1])
     v.d['elems'] = v.d['elems'] + list(o.d['elems']); return unit()
+def m_vec_append(I, s, fr, c, a, d, de, rb):
+    v = dr(I, s, a[0]); o = dr(I, s, a[1])
+    v.d['elems'] = v.d['elems'] + list(o.d['elems']); o.d['elems'] = []; return unit()
 def m_vec_is_empty(I, s, fr, c, a, d, de, rb):
     v = dr(I, s, a[0]); return z3.BoolVal(len(v.d['elems']) == 0)
 def m_vec_len(I, s, fr, c, a, d, de, rb):
@@ -135,7 +138,7 @@ def m_map_remove(I, s, fr, c, a, d, de, rb):
     return Adt('Option', z3.If(old(k0) != 0, BV64(1), BV64(0)), {('Some', 0): Obj('opaque')})
 
 STD_MODELS = [
-    (R(r'^<(HashMap<.*>|Vec<.*>|std::option::Option<.*>|schema::Signed<.*>|Root|KeyHolder|Delegations|Targets|DelegatedRole|schema::Target|TargetName|std::string::String|Box<dyn .*>|Limits|DateTime<Utc>|Decoded<.*>|Value) as Clone>::clone$'), m_clone_deep),
+    (R(r'^<(HashMap<.*>|Vec<.*>|std::option::Option<.*>|schema::Signed<.*>|Root|KeyHolder|Delegations|Targets|DelegatedRole|schema::Target|TargetName|std::string::String|Box<dyn .*>|Limits|DateTime<Utc>|Decoded<.*>|Value|std::path::PathBuf|Url) as Clone>::clone$'), m_clone_deep),
     (R(r'^std::option::Option::<.*>::(as_ref|as_mut)$'), m_opt_as_ref),
     (R(r'^std::option::Option::<.*>::unwrap_or_default$'), m_opt_unwrap_or_default),
     (R(r'^std::option::Option::<.*>::(is_some|is_none)$'), m_opt_is_some),
@@ -144,7 +147,7 @@ STD_MODELS = [
     (R(r'^std::option::Option::<.*>::get_or_insert_with::<'), m_opt_get_or_insert_with),
     (R(r'^std::option::Option::<.*>::unwrap$'), m_opt_unwrap),
     (R(r'^Vec::<.*>::new$'), m_vec_new), (R(r'^Vec::<.*>::push$'), m_vec_push), (R(r'^<Vec<.*> as Extend<.*>>::extend::<Vec<'), m_vec_extend),
-    (R(r'^Vec::<.*>::is_empty$'), m_vec_is_empty), (R(r'^Vec::<.*>::len$'), m_vec_len),
+    (R(r'^Vec::<.*>::append$'), m_vec_append), (R(r'^Vec::<.*>::is_empty$'), m_vec_is_empty), (R(r'^Vec::<.*>::len$'), m_vec_len),
     (R(r'^<&Vec<.*> as IntoIterator>::into_iter$'), m_vec_iter), (R(r'^<Vec<.*> as IntoIterator>::into_iter$'), m_vec_iter), (R(r'^core::slice::<impl \[.*\]>::iter$'), m_vec_iter),
     (R(r'^<std::slice::Iter<.*> as Iterator>::next$'), m_iter_next), (R(r'^<std::vec::IntoIter<.*> as Iterator>::next$'), m_iter_next),
     (R(r'^HashMap::<.*>::new$'), m_fmap_new), (R(r'^HashMap::<.*>::insert$'), m_map_insert), (R(r'^<HashMap<.*> as Extend<.*>>::extend::<HashMap<'), m_map_extend),
